@@ -12,10 +12,10 @@ RULE = ('A bundle with a generated plaintext payload (0..5000 octets incl. empty
         'Confidentiality Block over {payload, extension block, both} either (A) from a real source agent with a policy '
         'for COSE_Encrypt0 (A128GCM / A256GCM direct key) or COSE_Encrypt with an A256KW wrapped content key, a fresh IV '
         'per operation, through its real transmit chain, or (B) from the independent reference source (Encrypt0, scopes '
-        'the repository never emits).  Oracle part 1 on the wire (independent codec): the target data differs from the '
+        'the repository never emits, or no scope parameter at all = default scope).  Oracle part 1 on the wire (independent codec): the target data differs from the '
         'plaintext and the independent decryptor vlib/refcose.py recovers exactly the plaintext.  Part 2: the encoded '
         'bundle is altered (every ciphertext bit for small cases, each primary field, target type/number/flags, security '
-        'source, scope entries, additional-protected parameter, IV, kid, protected header, wrong / missing key) and fed '
+        'source, scope entries, the scope parameter removed or retyped, additional-protected parameter, IV, kid, protected header, wrong / missing key) and fed '
         'to a fresh real receiver with accept_after_verify on or off: it delivers iff the reference still decrypts; on '
         'acceptance the application sees exactly the plaintext and no BCB, without acceptance the bundle unchanged; '
         'otherwise the plaintext never reaches an application and a deletion with a security reason (12..16) is '
@@ -30,11 +30,11 @@ ASSUMPTIONS = [
 EXHAUSTIVE_PART = 'every single-bit flip of the ciphertext of the enumerated small cases; every catalogue alteration per mode x target'
 
 SEC_REASONS = {12, 13, 14, 15, 16}
-SCOPES = [{0: 1, -1: 1}, {0: 1, -1: 1, -2: 1}, {-1: 1}, {0: 1, -1: 1, 3: 3}]
+SCOPES = [{0: 1, -1: 1}, {0: 1, -1: 1, -2: 1}, {-1: 1}, {0: 1, -1: 1, 3: 3}, None]    # None: no scope parameter, the default applies
 MODES = ['enc0-256', 'enc0-128', 'kw']
 ALTERATION_KINDS = ['pri-flags', 'pri-dest', 'pri-src', 'pri-time', 'pri-seq', 'pri-lifetime', 'tgt-data', 'tgt-flags',
                     'tgt-type', 'tgt-num', 'tgt-crc-type', 'other-data', 'other-flags', 'sec-source', 'sec-scope',
-                    'sec-addl-protected', 'res-protected', 'res-kid', 'res-iv', 'wrong-key', 'no-key']
+                    'sec-addl-protected', 'res-protected', 'res-kid', 'res-iv', 'wrong-key', 'no-key', 'sec-scope-retype', 'sec-scope-drop']
 
 
 def prepare():
@@ -72,6 +72,10 @@ def enumerate_cases(tier):
             continue
         yield {'direction': direction, 'mode': mode, 'targets': targets, 'scope': 1 if direction == 'B' else 0, 'accept': accept,
                'plen': 9, 'seed': 1, 'pcrc': 0, 'bcrc': 0, 'alterations': catalogue}
+        if direction == 'B' and mode == 'enc0-256':
+            # a source that states no AAD scope at all (the default scope covers the security block itself too)
+            yield {'direction': 'B', 'mode': mode, 'targets': targets, 'scope': len(SCOPES) - 1, 'accept': accept,
+                   'plen': 9, 'seed': 1, 'pcrc': 0, 'bcrc': 0, 'alterations': catalogue}
     # every ciphertext bit (payload ciphertext = plaintext length + 16 octet tag)
     for direction, mode in (('A', 'enc0-256'), ('A', 'kw'), ('B', 'enc0-128')):
         plen = 4 if tier == 'quick' else 12
@@ -144,7 +148,8 @@ def encrypt(case, out):
         except r.RefError as exc:
             out.fail('source-not-wellformed', 'the source agent emitted a malformed bundle: %s' % exc)
             return None, None
-    scope = dict(SCOPES[case['scope'] % len(SCOPES)])
+    scope = SCOPES[case['scope'] % len(SCOPES)]
+    scope = dict(scope) if scope is not None else None
     return bundle, bu.ref_add_bcb(bundle, target_nums, kid, alg, scope, ivs)
 
 
